@@ -324,6 +324,8 @@ func checkC04(c *Ctx) {
 	loopbackRule(c, "C04.6")
 	c.Rule("C04.7", "the loopback port decodes with a decoder built from the options and callback of the current Listen (= C17.4): a reused decoder would apply an earlier listener's buffer size / sysex option to this stream", 6)
 	c.include(checkC17, map[string]string{"C17.4": "C04.7"})
+	c.Rule("C04.8", "the buffer size and sysex options given to ListenTo reach the decoder unchanged, whatever the order of the options (= C14.1): a sysex message that fits the configured buffer is decoded, not dropped against a default size", 4)
+	c.include(checkC14, map[string]string{"C14.1": "C04.8"})
 }
 
 // initialAndChunking: NewReader's state = initial receiver state; EachMessage structure.
@@ -426,7 +428,7 @@ func initialAndChunking(c *Ctx, rule string) {
 			for _, b := range f.Blocks {
 				for _, in := range b.Instrs {
 					for _, op := range in.Operands(nil) {
-						if g, ok := (*op).(*ssa.Global); ok && g.Pkg != nil && g.Pkg.Pkg.Path() == modPath+"/drivers" {
+						if g, ok := (*op).(*ssa.Global); ok && g.Pkg != nil && g.Pkg.Pkg.Path() == modPath+"/drivers" && !p.immutableGlobal(g) {
 							globals++
 						}
 					}
